@@ -324,6 +324,28 @@ theorem fenc_namespace_full_fails :
    [(str "first_error>msg", .delete)], [.ns (str "first_error"), .leaf (str "msg") (.str (str "SECRET"))],
    str "SECRET", by decide⟩
 
+/-! ### a filter encoder wrapped in a filter encoder -/
+
+/-- for the fields of the entry itself (no object above them) the wrapped filter encoder does what a filter
+    encoder does: `…_partial` of "the two encoders compose" -/
+theorem fenc_wrapped_encoder_top_level_partial (o : Oracles) (inner : FCfg) (k : Bytes) (v : FVal) :
+    encNode0 o inner (.leaf k v) = encNode o inner [] (.leaf k v) := by
+  simp [encNode0, encNode]
+
+/-- FULL STATEMENT (false on the unchanged tree): wrapping composes — `filterEncode2 o outer inner = filterEncode o inner ∘
+    filterEncode o outer`.  Refuted: the outer encoder marshals the fields of an object into the inner
+    encoder's TOP-LEVEL copy, so the inner encoder looks every nested field up without its key path:
+    with no outer filter at all, the inner `request>uri → delete` does not run. -/
+theorem fenc_wrapped_encoder_full_fails :
+    ∃ (o : Oracles) (inner : FCfg) (fields : List Node) (secret : Bytes),
+      lookupF inner (str "request>uri") = some .delete ∧
+      visList [] fields = [(str "request>uri", .str secret)] ∧
+      listStrings (filterEncode o inner (filterEncode o [] fields)) = [str "request"] ∧
+      listStrings (filterEncode2 o [] inner fields) = [str "request", str "uri", secret] :=
+  ⟨⟨id, id, fun _ => none, fun _ => none, fun _ => [], fun _ => none, fun _ => [], fun _ => [], fun _ => []⟩,
+   [(str "request>uri", .delete)], [.obj (str "request") [.leaf (str "uri") (.str (str "SECRET"))]],
+   str "SECRET", by decide⟩
+
 /-! ### non-vacuity -/
 
 def exFO : Oracles := ⟨fun s => 104 :: s, id, fun _ => none, fun _ => none, fun _ => [], fun _ => none, fun _ => [], fun _ => [], fun _ => []⟩
